@@ -12,7 +12,7 @@ REAL = ['onl.sim.resources.resource.*', 'onl.sim.resources.base.*', 'onl.sim ker
 STUBS = ['user and interrupter process bodies (harness)']
 ASSUMPTIONS = ['each process holds or awaits at most one request at a time and always releases/cancels before it goes on',
                'grants are observed as trigger records of request events; evictions as users vanishing without a release']
-PROBES = ['user_process_ended_holding_the_slot', 'cancel_of_queue_head', 'equal_key_preemption_attempt', 'victim_interrupted_before_it_saw_grant',
+PROBES = ['evicted_from_another_resource_while_holding', 'user_process_ended_holding_the_slot', 'cancel_of_queue_head', 'equal_key_preemption_attempt', 'victim_interrupted_before_it_saw_grant',
           'release_and_request_same_instant', 'preemption', 'double_release', 'foreign_release', 'with_exit',
           'interrupt_while_queued', 'interrupt_while_holding', 'boundary_with_queue']
 
@@ -131,6 +131,8 @@ def check(w):
                 abandoned.add(rid)
                 stats['user_process_ended_holding_the_slot'] = 1
             if what == 'intr':
+                if isinstance(r[8], tuple) and r[8] and r[8][0] == 'Preempted' and not r[8][3]:
+                    stats['evicted_from_another_resource_while_holding'] = 1
                 intr_seen.setdefault(pid, []).append(r)
                 if r[9] == 'wait':
                     stats['interrupt_while_queued'] = 1
@@ -170,7 +172,7 @@ def check(w):
         if pre not in granted or granted[pre][0] > ev['Gq']:
             viol.append(('C06.5', 'the slot of evicted %s did not go to the preemptor %s in the same action' % (vic, pre)))
         vpid = created[vic]['pid']
-        got = [x for x in intr_seen.get(vpid, []) if x[1] > ev['Gq'] and isinstance(x[8], tuple) and x[8][0] == 'Preempted']
+        got = [x for x in intr_seen.get(vpid, []) if x[1] > ev['Gq'] and isinstance(x[8], tuple) and x[8][0] == 'Preempted' and x[8][3]]
         want = ('Preempted', created[pre]['pid'], granted[vic][1], True)
         if not got:
             if w.quiescent and vic not in abandoned:
